@@ -1294,7 +1294,14 @@ class FortranReaderBase:
                 return self.handle_inline_comment(
                     newline, lineno, quotechar, buffer_comments_to_fifo
                 )
-            put_item(self.comment_item(commentline, lineno, lineno))
+            # It's an inline comment if anything other than white space
+            # precedes it on the line.
+            is_inline = bool("".join(noncomment_items).strip())
+            put_item(
+                self.comment_item(
+                    commentline, lineno, lineno, inline_comment=is_inline
+                )
+            )
             had_comment = True
         return "".join(noncomment_items), newquotechar, had_comment
 
